@@ -2,7 +2,7 @@
     frame models rely on are the ones REGENERATED from the current Go source ([Gen.v]). A change
     of any of these constants or of [IsValidSType] stops this file from compiling. *)
 From Coq Require Import ZArith Bool List Lia ZifyBool.
-From GoSecs Require Import Base.GoInt Gen.Gen Hsms.Header Hsms.HeaderProofs Hsms.Frame.
+From GoSecs Require Import Base.GoInt Gen.Gen Hsms.Header Hsms.HeaderProofs Hsms.Frame Hsms.FrameProofs.
 Import ListNotations.
 Open Scope Z_scope.
 
@@ -42,4 +42,25 @@ Lemma bridge_decode_stypes st : 0 <= st < 256 ->
   = Gen.hsms.IsValidSType st.
 Proof.
   intros H. rewrite bridge_IsValidSType by exact H. unfold valid_stype. destruct (st =? 0); reflexivity.
+Qed.
+
+(** the round trip at the cap the source defines *)
+Lemma roundtrip_at_cap m : wf_msg frame_cap m ->
+  decode_message frame_cap (to_bytes m) = Ok (forget_reply m) /\ to_bytes (forget_reply m) = to_bytes m.
+Proof. apply decode_to_bytes. pose proof bridge_cap. lia. Qed.
+
+(** the size edge at the cap the source defines: a body of cap-9 bytes (<= MaxByteSize+4, the
+    largest single-item encoding) is accepted by the constructor and refused by the decoder *)
+Lemma roundtrip_unbounded_refuted : exists stream fn w sid sb it m,
+  new_data_message stream fn w sid sb it = Ok m /\
+  len (d_body m) <= Gen.secs2.MaxByteSize + 4 /\
+  decode_message frame_cap (to_bytes (MData m)) = Err ELenBig.
+Proof.
+  exists 1, 1, false, 0, (0, 0, 0, 1), (ItemOk (repeat 0 (Z.to_nat (frame_cap - 9)))).
+  eexists. split; [reflexivity|].
+  assert (L : len (repeat 0 (Z.to_nat (frame_cap - 9))) = frame_cap - 9).
+  { unfold len. rewrite repeat_length. pose proof bridge_cap. lia. }
+  split.
+  - cbn [d_body item_body]. rewrite L. pose proof bridge_cap as (E & _). unfold frame_cap. rewrite E. lia.
+  - apply decode_to_bytes_oversize; cbn [d_body item_body]; rewrite ?L; pose proof bridge_cap; lia.
 Qed.
